@@ -101,7 +101,7 @@ def run(ctx):
         ctx.exhaustive = False
     else:
         # every file of <= 2 tests over the whole pool against main VCL 1, over the core pool against main VCL 2
-        m1 = ctx.tlc("Tester", defines={"MaxLen": "2", "Pool": "CoreNames \\cup FamNames", "MainIds": "MainOne", "MaxFam": "2"},
+        m1 = ctx.tlc("Tester", defines={"MaxLen": "2", "Pool": "CoreNames \\cup FamNames", "MainIds": "MainOne", "MaxFam": "1"},
                      tag="len<=2 core+fam main1", timeout=1800)
         m2 = ctx.tlc("Tester", defines={"MaxLen": "2", "Pool": "CoreNames", "MainIds": "{2}", "MaxFam": "0"},
                      tag="len<=2 core main2", timeout=1800)
@@ -127,11 +127,12 @@ def run(ctx):
             raise MachineryFault("Tester.tla: the mechanism layer violates the requirement layer on the model: %s "
                                  "(a lead, not a verdict - see %s)" % (m.violated, m.out_path))
     # quick: the API for every file + one of the two CLI modes (alternating) for every third file; thorough: all three ways for the
-    # files of <= 2 tests, API + alternating CLI mode for the longer ones
+    # files of one test (every test alone), API + alternating CLI mode for the others
     if quick:
         groups = [("all", [m.beh_path for m in runs_tlc], "api,cli3")]
     else:
-        groups = [("short", [runs_tlc[0].beh_path], "api,json,plain"), ("long", [m.beh_path for m in runs_tlc[1:]], "api,cli")]
+        groups = [("single", [runs_tlc[5].beh_path], "api,json,plain"),
+                  ("rest", [m.beh_path for i, m in enumerate(runs_tlc) if i != 5], "api,cli")]
     total = 0
     for gi, (gname, paths, modes) in enumerate(groups):
         mains, runs, n = split_behaviours(ctx, paths, gname)
